@@ -2818,7 +2818,7 @@ func (r *Resolver) lookupDS(ctx context.Context, qname string, cd bool) (msg *dn
 	}
 
 	if len(dsres.Answer) == 0 && len(dsres.Ns) == 0 {
-		return nil, fmt.Errorf("DS or NSEC records not found")
+		return nil, errDSProofMissing
 	}
 
 	return dsres, nil
@@ -3315,7 +3315,7 @@ func (r *Resolver) verifyDNSSEC(ctx context.Context, signer, signed string, resp
 				return false, rootErr
 			}
 			if !ok {
-				return false, fmt.Errorf("root zone keys not verified")
+				return false, errRootKeysNotVerified
 			}
 			return true, nil
 		}
@@ -3353,7 +3353,7 @@ func (r *Resolver) verifyDNSSEC(ctx context.Context, signer, signed string, resp
 	}
 
 	if len(parentdsRR) == 0 {
-		return false, fmt.Errorf("DS RR set empty")
+		return false, errDSSetEmpty
 	}
 
 	unsupportedOnly, err := dnssec.VerifyDSWithWork(keys, parentdsRR, r.dnssecWork(ctx))
